@@ -1798,39 +1798,29 @@ fn tol_1900_sym(e_lo: i32, e_hi: i32) {
     kani::assume(e_lo <= e && e <= e_hi);
     tol_1900(e);
 }
-fn tol_1900_sel(e_lo: i32, e_hi: i32) {
-    let sel: i32 = kani::any();
-    kani::assume(e_lo <= sel && sel <= e_hi);
-    let mut e = e_lo;
-    while e <= e_hi {
-        if sel == e {
-            tol_1900(e);
-        }
-        e += 1;
-    }
+fn days_bits(e_lo: u32, e_hi: u32, is_1904: bool) {
+    let e: u32 = kani::any();
+    kani::assume(e_lo <= e && e <= e_hi);
+    let k: u32 = kani::any();
+    kani::assume(k < (1u32 << e));
+    let n: u32 = (1u32 << e) + k;
+    kani::assume(n <= 2958465);
+    let v = mk(e as i32, (k as u64) << (52 - e), false);
+    let ms = ms_of(v, is_1904);
+    let days = if is_1904 { n as i64 + 1462 } else if n >= 60 { n as i64 } else { n as i64 + 1 };
+    assert!(ms == days * DAY_MS);
 }
+macro_rules! yh { ($name:ident, $body:expr) => {
 #[kani::proof]
 #[kani::stub(chrono::TimeDelta::milliseconds, rec_milliseconds)]
-fn y_tol_sym_11_15() {
-    tol_1900_sym(11, 15);
-}
-#[kani::proof]
-#[kani::stub(chrono::TimeDelta::milliseconds, rec_milliseconds)]
-#[kani::unwind(7)]
-fn y_tol_sel_11_15() {
-    tol_1900_sel(11, 15);
-}
-#[kani::proof]
-#[kani::stub(chrono::TimeDelta::milliseconds, rec_milliseconds)]
-fn y_days_16_18() {
-    whole_days_1900(1 << 16, (1 << 19) - 1);
-}
-#[kani::proof]
-#[kani::stub(chrono::TimeDelta::milliseconds, rec_milliseconds)]
-fn y_days_both_16_18() {
-    let n: u32 = kani::any();
-    kani::assume((1 << 16) <= n && n < (1 << 19));
-    let is_1904: bool = kani::any();
-    let ms = ms_of(n as f64, is_1904);
-    assert!(ms == (n as i64 + if is_1904 { 1462 } else { 0 }) * DAY_MS);
-}
+fn $name() { $body; }
+} }
+yh!(y_tol_0_4, tol_1900_sym(0, 4));
+yh!(y_tol_6_10, tol_1900_sym(6, 10));
+yh!(y_tol_m14_m1, tol_1900_sym(-14, -1));
+yh!(y_tol_6_21, tol_1900_sym(6, 21));
+yh!(y_days_bits_6_21, days_bits(6, 21, false));
+yh!(y_days_bits_0_5, days_bits(0, 5, false));
+yh!(y_days_bits_16_21, days_bits(16, 21, false));
+yh!(y_days04_bits_6_21, days_bits(6, 21, true));
+yh!(y_days04_bits_0_5, days_bits(0, 5, true));
